@@ -262,6 +262,19 @@ func (f *Frame) execInstr(b *ssa.BasicBlock, in ssa.Instruction, o *blockOut) bo
 		// evaluate arguments now
 		f.deferArgs[x] = f.callArgs(&x.Call)
 	case *ssa.RunDefers:
+		if len(f.defers) == 0 {
+			return false
+		}
+		if f.vc.quiet == 0 {
+			// all returns share one execution of the deferred calls: park this path here,
+			// the deferred calls run once on the merged state (see Frame.finishDefers)
+			f.parked = append(f.parked, parkedReturn{b: b, at: x, st: o.st.clone(), guard: o.guard})
+			o.guards = make([]Term, len(b.Succs))
+			for i := range o.guards {
+				o.guards[i] = False
+			}
+			return true
+		}
 		f.runDefers(b, x, o)
 	case *ssa.Call:
 		res := f.call(x, &x.Call, o, x.Type())
